@@ -205,11 +205,11 @@ def helpers(ctx: Ctx):
     fn = repo.func(DO, "DictOps.add_to_dict")
     xs, k, v = fn.params[1:4]
     ps = flow.paths(fn.node)
-    ctx.check(len(ps) == 1 and flow.dump(ps[0].value) == f"{xs}.set({k}, {v})", "D7", "IX.helper", "add_to_dict = xs.set(id, obj)", fn, why_bad="shape changed", construct="add_to_dict")
+    ctx.check(flow.values_match(ps, f"{xs}.set({k}, {v})"), "D7", "IX.helper", "add_to_dict = xs.set(id, obj)", fn, why_bad="shape changed", construct="add_to_dict")
     fn = repo.func(DO, "DictOps.remove_from_dict")
     xs, k = fn.params[1:3]
     ps = flow.paths(fn.node)
-    ctx.check(len(ps) == 1 and flow.dump(ps[0].value) == f"{xs}.delete({k})", "D7", "IX.helper", "remove_from_dict = xs.delete(id)", fn, why_bad="shape changed", construct="remove_from_dict")
+    ctx.check(flow.values_match(ps, f"{xs}.delete({k})"), "D7", "IX.helper", "remove_from_dict = xs.delete(id)", fn, why_bad="shape changed", construct="remove_from_dict")
     fn = repo.func(DO, "DictOps.add_to_collection_dict")
     xs, c, o = fn.params[1:4]
     ps = flow.paths(fn.node)
